@@ -431,6 +431,18 @@ func (mbox *MailboxView) Store(w *imapserver.FetchWriter, numSet imap.NumSet, fl
 	return nil
 }
 
+// Expunge removes the messages flagged as deleted. If uids is non-nil, only
+// the messages it contains are removed.
+func (mbox *MailboxView) Expunge(w *imapserver.ExpungeWriter, uids *imap.UIDSet) error {
+	if uids != nil {
+		mbox.mutex.Lock()
+		static, _ := mbox.staticNumSet(*uids).(imap.UIDSet)
+		mbox.mutex.Unlock()
+		uids = &static
+	}
+	return mbox.Mailbox.Expunge(w, uids)
+}
+
 func (mbox *MailboxView) Poll(w *imapserver.UpdateWriter, allowExpunge bool) error {
 	return mbox.tracker.Poll(w, allowExpunge)
 }
